@@ -1,7 +1,7 @@
 """C15 - liquid-liquid and solid-liquid splits meet their equilibrium and labelling rules."""
 import random
 
-from harness import tlc
+from harness import par, tlc
 from harness.drivers import liquideq as dl
 
 ASSUME = [
@@ -87,7 +87,8 @@ def schedule_trace(tid, path, method, tops):
     return dict(id=tid, mode='seq', init=dict(T=0, z='none', cs='none'), steps=steps)
 
 
-def random_lle_trace(rng, tid, method):
+def random_lle_trace(seed, tid, method):
+    rng = random.Random(seed)
     w = dl.LLEWorld(method, k=rng.choice([1e-3, 1e3, 7.]))
     steps = []
     for n in range(rng.randint(2, 5)):
@@ -108,7 +109,8 @@ def random_lle_trace(rng, tid, method):
     return dict(id=tid, mode='seq', init=dict(T=0, z='none', cs='none'), steps=steps)
 
 
-def sle_trace(rng, tid):
+def sle_trace(seed, tid):
+    rng = random.Random(seed)
     w = dl.SLEWorld(rng)
     steps = []
     for n in range(rng.randint(1, 4)):
@@ -160,17 +162,13 @@ def run(ctx):
     chosen = ext if not quick else rng.sample(ext, min(100, len(ext)))
     if dev_trace:
         chosen.append(max(dev_trace, key=len))
-    traces = []
-    for k, p in enumerate(chosen):
-        t = schedule_trace('W%d' % k, p, 'pseudo equilibrium' if k % 10 else 'shgo', 'none' if k % 3 else 'Water')
-        if t:
-            traces.append(t)
+    jobs = [('W%d' % k, p, 'pseudo equilibrium' if k % 10 else 'shgo', 'none' if k % 3 else 'Water') for k, p in enumerate(chosen)]
+    traces = [t for t in par.pmap(schedule_trace, jobs) if t]
     n_sched = len(traces)
     methods = ['pseudo equilibrium', 'shgo', 'pseudo equilibrium', 'differential evolution']
-    for k in range(40 if quick else 2500):
-        traces.append(random_lle_trace(rng, 'L%d' % k, methods[k % 4] if not quick or k % 20 == 3 else methods[1 if k % 5 == 0 else 0]))
-    for k in range(150 if quick else 4000):
-        traces.append(sle_trace(rng, 'S%d' % k))
+    jobs = [('%d:L%d' % (ctx.seed, k), 'L%d' % k, methods[k % 4] if not quick or k % 20 == 3 else methods[1 if k % 5 == 0 else 0]) for k in range(40 if quick else 2500)]
+    traces += par.pmap(random_lle_trace, jobs)
+    traces += par.pmap(sle_trace, [('%d:S%d' % (ctx.seed, k), 'S%d' % k) for k in range(150 if quick else 4000)])
     # remember the method in the observation (for violation keys)
     defs, cfgc = dl.tla_constants()
     stats = dict(ok=0, ops={})
